@@ -167,4 +167,12 @@ theorem c13_arithmetic_is_source_arithmetic :
     (∀ s : Stream, s.offset = Generated.streamOffset s.r.b s.r.e s.cur) :=
   ⟨gen_regionCutRel, gen_streamSizeLeft, gen_streamSize, gen_streamOffset⟩
 
+/-- **A read on a stream asks its source for what the source code asks** (`ByteStream::read`, translated on
+    every run): at most the buffer, at most what is left of the region. -/
+theorem c13_stream_read_is_source_read (s : Stream) (n short : Nat) :
+    let req := Generated.streamReadRequest s.r.b s.r.e s.cur n
+    let got := if short = 0 then min req (s.src.length - s.cur) else min short (min req (s.src.length - s.cur))
+    s.read n short = (slice s.src s.cur got, { s with cur := s.cur + got }) :=
+  gen_streamRead s n short
+
 end Jubako
